@@ -24,6 +24,7 @@ import (
 	"sort"
 	"strings"
 	"sync"
+	"sync/atomic"
 	"testing"
 	"time"
 
@@ -167,33 +168,33 @@ func (o *c20Sys) Inherit(s *Spec, p Object) {
 }
 func (o *c20Sys) Close() { c20Close(o, &o.c20Base) }
 
-func (o *c20GateA) Category() ObjectCategory { return CategoryTrafficGate }
-func (o *c20GateA) Kind() string             { return "VerifGateA" }
-func (o *c20GateA) DefaultSpec() interface{} { return &c20Spec{} }
-func (o *c20GateA) Status() *Status          { return &Status{} }
-func (o *c20GateA) Close()                   { c20Close(o, &o.c20Base) }
+func (o *c20GateA) Category() ObjectCategory          { return CategoryTrafficGate }
+func (o *c20GateA) Kind() string                      { return "VerifGateA" }
+func (o *c20GateA) DefaultSpec() interface{}          { return &c20Spec{} }
+func (o *c20GateA) Status() *Status                   { return &Status{} }
+func (o *c20GateA) Close()                            { c20Close(o, &o.c20Base) }
 func (o *c20GateA) Init(s *Spec, _ context.MuxMapper) { c20Init(o, &o.c20Base, s) }
 func (o *c20GateA) Inherit(s *Spec, p Object, _ context.MuxMapper) {
 	_, ok := p.(*c20GateA)
 	c20Inherit(o, &o.c20Base, s, p, ok)
 }
 
-func (o *c20GateB) Category() ObjectCategory { return CategoryTrafficGate }
-func (o *c20GateB) Kind() string             { return "VerifGateB" }
-func (o *c20GateB) DefaultSpec() interface{} { return &c20Spec{} }
-func (o *c20GateB) Status() *Status          { return &Status{} }
-func (o *c20GateB) Close()                   { c20Close(o, &o.c20Base) }
+func (o *c20GateB) Category() ObjectCategory          { return CategoryTrafficGate }
+func (o *c20GateB) Kind() string                      { return "VerifGateB" }
+func (o *c20GateB) DefaultSpec() interface{}          { return &c20Spec{} }
+func (o *c20GateB) Status() *Status                   { return &Status{} }
+func (o *c20GateB) Close()                            { c20Close(o, &o.c20Base) }
 func (o *c20GateB) Init(s *Spec, _ context.MuxMapper) { c20Init(o, &o.c20Base, s) }
 func (o *c20GateB) Inherit(s *Spec, p Object, _ context.MuxMapper) {
 	_, ok := p.(*c20GateB)
 	c20Inherit(o, &o.c20Base, s, p, ok)
 }
 
-func (o *c20Pipe) Category() ObjectCategory { return CategoryPipeline }
-func (o *c20Pipe) Kind() string             { return "VerifPipe" }
-func (o *c20Pipe) DefaultSpec() interface{} { return &c20Spec{} }
-func (o *c20Pipe) Status() *Status          { return &Status{} }
-func (o *c20Pipe) Close()                   { c20Close(o, &o.c20Base) }
+func (o *c20Pipe) Category() ObjectCategory          { return CategoryPipeline }
+func (o *c20Pipe) Kind() string                      { return "VerifPipe" }
+func (o *c20Pipe) DefaultSpec() interface{}          { return &c20Spec{} }
+func (o *c20Pipe) Status() *Status                   { return &Status{} }
+func (o *c20Pipe) Close()                            { c20Close(o, &o.c20Base) }
 func (o *c20Pipe) Init(s *Spec, _ context.MuxMapper) { c20Init(o, &o.c20Base, s) }
 func (o *c20Pipe) Inherit(s *Spec, p Object, _ context.MuxMapper) {
 	_, ok := p.(*c20Pipe)
@@ -249,7 +250,7 @@ type c20Input struct {
 	Watchers []c20Watcher `json:"watchers"`
 	Hist     []c20Item    `json:"hist"`
 	Panics   []c20Panic   `json:"panics"`
-	Enum     []int        `json:"enum,omitempty"` // harness "regx": [global index, size of the enumeration]
+	Enum     []int        `json:"enum,omitempty"`     // harness "regx": [global index, size of the enumeration]
 	Shutdown bool         `json:"shutdown,omitempty"` // harness "reg"/"regx": call the real Supervisor.close() after the history
 }
 
@@ -988,4 +989,430 @@ func c20GenSuper(r *verifh.Rand, i int) interface{} {
 
 func TestVerifC20Super(t *testing.T) {
 	verifh.Run(t, c20GenSuper, c20ExecSuper, 0)
+}
+
+// ---------------------------------------------------------------------------
+// harness "superbusy" (engineer mux; seeded change C20-m5): the real run loops with a BUSY consumer.
+//
+// busy[i] = k > 0: while the supervisor goroutine is inside handleEvent for snapshot i (the scripted kind
+// VerifBlock blocks in Init / Inherit on a gate), the harness pushes the next k snapshots; the registry applies
+// them and their events queue up in the watcher channel (capacity 10) behind the one being handled; then the gate
+// is opened and the supervisor works the queue off. One name is flapped inside such a batch (change or appear,
+// disappear, reappear with an equal or a different spec). The steps of the items i … i+k-1 are "deferred", the step
+// of item i+k carries all lifecycle calls of the batch (judge "superbusy").
+
+type c20Block struct{}
+
+var (
+	c20BlockArmed   int32
+	c20BlockEntered = make(chan struct{}, 4)
+	c20BlockGate    chan struct{}
+	c20BlockOnce    sync.Once
+)
+
+func c20BlockWait() {
+	if atomic.CompareAndSwapInt32(&c20BlockArmed, 1, 0) {
+		gate := c20BlockGate
+		c20BlockEntered <- struct{}{}
+		<-gate
+	}
+}
+
+func (o *c20Block) Category() ObjectCategory  { return CategoryBusinessController }
+func (o *c20Block) Kind() string              { return "VerifBlock" }
+func (o *c20Block) DefaultSpec() interface{}  { return &c20Spec{} }
+func (o *c20Block) Status() *Status           { return &Status{} }
+func (o *c20Block) Init(s *Spec)              { c20BlockWait() }
+func (o *c20Block) Inherit(s *Spec, p Object) { c20BlockWait() }
+func (o *c20Block) Close()                    {}
+
+// c20Barrier2: like c20Barrier, but it publishes the body it was last initialised / inherited with, so that the
+// harness can wait for "the event of snapshot b has been (at least partly) handled" without counting signals
+// (a consumer that merged events would produce fewer of them).
+type c20Barrier2 struct{}
+
+var c20Barrier2Seen int64
+
+func c20Barrier2See(s *Spec) {
+	if sp, ok := s.ObjectSpec().(*c20Spec); ok {
+		atomic.StoreInt64(&c20Barrier2Seen, int64(sp.Body))
+	}
+}
+
+func (o *c20Barrier2) Category() ObjectCategory  { return CategoryBusinessController }
+func (o *c20Barrier2) Kind() string              { return "VerifBarrier2" }
+func (o *c20Barrier2) DefaultSpec() interface{}  { return &c20Spec{} }
+func (o *c20Barrier2) Status() *Status           { return &Status{} }
+func (o *c20Barrier2) Init(s *Spec)              { c20Barrier2See(s) }
+func (o *c20Barrier2) Inherit(s *Spec, p Object) { c20Barrier2See(s) }
+func (o *c20Barrier2) Close()                    {}
+
+type c20BusyInput struct {
+	c20Input
+	// Busy[i] = number of following snapshot items applied while the consumer is blocked in item i's event
+	Busy []int `json:"busy"`
+}
+
+type c20BusyStep struct {
+	c20Step
+	Deferred bool `json:"deferred,omitempty"`
+}
+
+type c20BusyObs struct {
+	Steps []c20BusyStep `json:"steps"`
+	Err   string        `json:"error,omitempty"`
+}
+
+func c20ExecSuperBusy(raw json.RawMessage) interface{} {
+	if c20Stuck >= 3 {
+		return c20BusyObs{Steps: []c20BusyStep{}, Err: "run loops stuck in the previous cases"}
+	}
+	o := c20ExecSuperBusy1(raw)
+	if strings.Contains(o.Err, "run loop") {
+		c20Stuck++
+	} else {
+		c20Stuck = 0
+	}
+	return o
+}
+
+func c20ExecSuperBusy1(raw json.RawMessage) c20BusyObs {
+	c20Register()
+	c20BarrierOnce.Do(func() { Register(&c20Barrier{}) })
+	c20BlockOnce.Do(func() { Register(&c20Block{}); Register(&c20Barrier2{}) })
+	var in c20BusyInput
+	if err := json.Unmarshal(raw, &in); err != nil {
+		return c20BusyObs{Err: "bad-input"}
+	}
+	if len(in.Cats) != len(c20Kinds) {
+		return c20BusyObs{Err: "bad-input"}
+	}
+	for k, e := range c20Kinds {
+		if in.Cats[k] != e.cat {
+			return c20BusyObs{Err: "bad-input"}
+		}
+	}
+	c20SetPanics(&in.c20Input)
+	// drain signals a previous (failed) case may have left behind
+	atomic.StoreInt64(&c20Barrier2Seen, -1)
+	for len(c20BlockEntered) > 0 {
+		<-c20BlockEntered
+	}
+	atomic.StoreInt32(&c20BlockArmed, 0)
+
+	dir, err := os.MkdirTemp("", "verifc20b")
+	if err != nil {
+		return c20BusyObs{Err: "tmpdir"}
+	}
+	defer os.RemoveAll(dir)
+	opt := option.New()
+	opt.AbsHomeDir = dir
+
+	syncCh := make(chan map[string]string)
+	syncer := clustertest.NewMockedSyncer()
+	syncer.MockedSyncPrefix = func(string) (<-chan map[string]string, error) { return syncCh, nil }
+	cls := clustertest.NewMockedCluster()
+	layout := &cluster.Layout{}
+	cls.MockedLayout = func() *cluster.Layout { return layout }
+	cls.MockedGetPrefix = func(string) (map[string]string, error) { return map[string]string{}, nil }
+	cls.MockedSyncer = func(time.Duration) (cluster.Syncer, error) { return syncer, nil }
+	prefix := layout.ConfigObjectPrefix()
+
+	oldGlobal := globalSuper
+	super := MustNew(opt, cls)
+	var gate chan struct{}
+	defer func() {
+		if gate != nil { // never leave the supervisor goroutine blocked
+			select {
+			case <-gate:
+			default:
+				close(gate)
+			}
+		}
+		var wg sync.WaitGroup
+		wg.Add(1)
+		super.Close(&wg)
+		wg.Wait()
+		globalSuper = oldGlobal
+	}()
+	or := super.objectRegistry
+	c20Rec.take()
+
+	tags := &c20Tags{gen: make(map[Object]int)}
+	obs := c20BusyObs{Steps: []c20BusyStep{}}
+	snapIdx, barrier, blockBody := 0, 0, 0
+	mkCfg := func(it c20Item) map[string]string {
+		cfg := c20Config(it.Snap, prefix)
+		barrier++
+		cfg[prefix+"zbarrier"] = fmt.Sprintf("name: zbarrier\nkind: VerifBarrier2\nbody: %d\n", barrier)
+		cfg[prefix+"zblock"] = fmt.Sprintf("name: zblock\nkind: VerifBlock\nbody: %d\n", blockBody)
+		return cfg
+	}
+	push := func(cfg map[string]string) bool {
+		select {
+		case syncCh <- cfg:
+			return true
+		case <-time.After(3 * time.Second):
+			return false
+		}
+	}
+	waitQueued := func(n int) bool {
+		deadline := time.Now().Add(3 * time.Second)
+		for len(super.watcher.eventChan) < n {
+			if time.Now().After(deadline) {
+				return false
+			}
+			time.Sleep(50 * time.Microsecond)
+		}
+		return true
+	}
+	// the barrier object has been initialised / inherited with the body of the newest snapshot pushed
+	waitBarrier := func() bool {
+		deadline := time.Now().Add(3 * time.Second)
+		for atomic.LoadInt64(&c20Barrier2Seen) != int64(barrier) {
+			if time.Now().After(deadline) {
+				return false
+			}
+			time.Sleep(50 * time.Microsecond)
+		}
+		return true
+	}
+	observe := func() c20Step {
+		// the last handleEvent has returned once an (empty) marker event pushed behind it was taken
+		marker := newObjectEntityWatcherEvent()
+		super.watcher.eventChan <- marker
+		for len(super.watcher.eventChan) > 0 {
+			time.Sleep(50 * time.Microsecond)
+		}
+		step := c20Step{Events: []c20Event{}}
+		step.Log = tags.calls(c20Rec.take())
+		log := step.Log[:0]
+		for _, c := range step.Log {
+			if c[1] >= 0 {
+				log = append(log, c)
+			}
+		}
+		step.Log = log
+		live := c20Live(super, tags)
+		step.Live = live[:0]
+		for _, e := range live {
+			if e[0] >= 0 {
+				step.Live = append(step.Live, e)
+			}
+		}
+		reg := c20RegEnts(or, tags)
+		step.Reg = reg[:0]
+		for _, e := range reg {
+			if e[0] >= 0 {
+				step.Reg = append(step.Reg, e)
+			}
+		}
+		return step
+	}
+	for i := 0; i < len(in.Hist); {
+		it := in.Hist[i]
+		if !it.IsSnap { // the supervisor attached its watcher in MustNew
+			obs.Steps = append(obs.Steps, c20BusyStep{c20Step: c20Step{Events: []c20Event{}, Log: []c20ObsCall{}, Live: c20Live(super, tags), Reg: c20RegEnts(or, tags)}})
+			i++
+			continue
+		}
+		k := 0
+		if i < len(in.Busy) {
+			k = in.Busy[i]
+		}
+		if k > 8 {
+			k = 8
+		}
+		for j := 1; j <= k; j++ { // the k following items must be snapshots
+			if i+j >= len(in.Hist) || !in.Hist[i+j].IsSnap {
+				k = j - 1
+				break
+			}
+		}
+		if k <= 0 {
+			if !push(mkCfg(it)) {
+				obs.Err = "registry run loop does not take the snapshot"
+				return obs
+			}
+			if !waitBarrier() {
+				obs.Err = "supervisor run loop did not reach the barrier"
+				return obs
+			}
+			// (the marker inside observe() orders the tagging after the event's handling; the registry has
+			// applied the snapshot before it sent the event)
+			tags.tagNew(or, snapIdx)
+			snapIdx++
+			obs.Steps = append(obs.Steps, c20BusyStep{c20Step: observe()})
+			i++
+			continue
+		}
+		// --- a batch: block the consumer inside item i's event, apply the next k snapshots, release
+		gate = make(chan struct{})
+		c20BlockGate = gate
+		blockBody++ // the block object changes (or appears): its Init / Inherit runs in this event
+		atomic.StoreInt32(&c20BlockArmed, 1)
+		if !push(mkCfg(it)) {
+			obs.Err = "registry run loop does not take the snapshot"
+			return obs
+		}
+		select {
+		case <-c20BlockEntered:
+		case <-time.After(3 * time.Second):
+			obs.Err = "supervisor run loop did not enter the blocking object"
+			return obs
+		}
+		tags.tagNew(or, snapIdx)
+		snapIdx++
+		for j := 1; j <= k; j++ {
+			if !push(mkCfg(in.Hist[i+j])) {
+				obs.Err = "registry run loop does not take the snapshot"
+				return obs
+			}
+			if !waitQueued(j) {
+				obs.Err = "registry run loop did not queue the event"
+				return obs
+			}
+			tags.tagNew(or, snapIdx)
+			snapIdx++
+		}
+		close(gate)
+		if !waitBarrier() {
+			obs.Err = "supervisor run loop did not reach the barrier"
+			return obs
+		}
+		for j := 0; j < k; j++ {
+			obs.Steps = append(obs.Steps, c20BusyStep{c20Step: c20Step{Events: []c20Event{}, Log: []c20ObsCall{}, Live: []c20Ent{}, Reg: []c20Ent{}}, Deferred: true})
+		}
+		obs.Steps = append(obs.Steps, c20BusyStep{c20Step: observe()})
+		i += k + 1
+	}
+	return obs
+}
+
+// c20GenSuperBusy: a short sequential prefix, then one or two batches in which one name flaps.
+func c20GenSuperBusy(r *verifh.Rand, i int) interface{} {
+	base := c20Gen(r, i+2000000).(c20Input)
+	in := c20BusyInput{c20Input: base}
+	in.Watchers = []c20Watcher{{Cats: []int{1}, Consumer: true, NoEvents: true}}
+	in.Shutdown = false
+	in.Enum = nil
+	// business controller kinds (category 1) and one kind outside the supervisor's filter
+	var biz []int
+	other := -1
+	for k, c := range in.Cats {
+		if c == 1 {
+			biz = append(biz, k)
+		} else if c == 3 && other < 0 {
+			other = k
+		}
+	}
+	if len(biz) == 0 {
+		return in
+	}
+	kindA := biz[0]
+	kindB := biz[len(biz)-1]
+	hist := []c20Item{{Attach: 0}}
+	busy := []int{0}
+	// current snapshot content: name -> entry
+	cur := map[int]c20Entry{}
+	snap := func() c20Item {
+		var es []c20Entry
+		for n := 0; n < 4; n++ {
+			if e, ok := cur[n]; ok {
+				es = append(es, e)
+			}
+		}
+		return c20Item{IsSnap: true, Snap: es}
+	}
+	emit := func(b int) {
+		hist = append(hist, snap())
+		busy = append(busy, b)
+	}
+	// sequential prefix
+	for n := 0; n < 3; n++ {
+		if r.Bool(2, 3) {
+			cur[n] = c20Entry{Name: n, Kind: r.PickInt(kindA, kindA, kindB), Body: r.Intn(3)}
+		}
+	}
+	emit(0)
+	if r.Bool(1, 2) {
+		n := r.Intn(3)
+		cur[n] = c20Entry{Name: n, Kind: kindA, Body: r.Intn(3)}
+		emit(0)
+	}
+	nb := r.PickInt(1, 1, 2)
+	for b := 0; b < nb; b++ {
+		x := r.Intn(3) // the flapping name
+		k := r.PickInt(3, 3, 4, 5)
+		// the item whose event blocks the consumer: some unrelated change (or none)
+		if r.Bool(1, 2) {
+			y := (x + 1) % 3
+			cur[y] = c20Entry{Name: y, Kind: kindA, Body: r.Intn(3)}
+		}
+		emit(k)
+		// step 1: x changes its spec / appears / changes kind
+		old, had := cur[x]
+		e1 := c20Entry{Name: x, Kind: kindA, Body: r.Intn(3)}
+		if had && r.Bool(2, 3) {
+			e1 = c20Entry{Name: x, Kind: old.Kind, Body: (old.Body + 1 + r.Intn(2)) % 3}
+		} else if had && r.Bool(1, 2) {
+			e1.Kind = kindB
+		}
+		cur[x] = e1
+		emit(0)
+		// step 2: x disappears (sometimes leaves the supervisor's category instead)
+		if other >= 0 && r.Bool(1, 5) {
+			cur[x] = c20Entry{Name: x, Kind: other, Body: e1.Body}
+		} else {
+			delete(cur, x)
+		}
+		emit(0)
+		// step 3: x reappears: with the spec of step 1 (2/3), with another body, or with the spec it had before the batch
+		switch {
+		case r.Bool(2, 3):
+			cur[x] = e1
+		case had && r.Bool(1, 2):
+			cur[x] = old
+		default:
+			cur[x] = c20Entry{Name: x, Kind: e1.Kind, Body: (e1.Body + 1) % 3}
+		}
+		emit(0)
+		// further queued snapshots: anything
+		for j := 3; j < k; j++ {
+			n := r.Intn(4)
+			switch r.Intn(3) {
+			case 0:
+				delete(cur, n)
+			case 1:
+				cur[n] = c20Entry{Name: n, Kind: r.PickInt(kindA, kindB), Body: r.Intn(3)}
+			default:
+				if e, ok := cur[n]; ok {
+					e.Body = (e.Body + 1) % 3
+					cur[n] = e
+				}
+			}
+			emit(0)
+		}
+		// a sequential snapshot after the batch (later updates of a lost object would be "BUG: update not found")
+		if r.Bool(2, 3) {
+			if e, ok := cur[x]; ok {
+				e.Body = (e.Body + 1) % 3
+				cur[x] = e
+			} else {
+				cur[x] = c20Entry{Name: x, Kind: kindA, Body: r.Intn(3)}
+			}
+			emit(0)
+		}
+	}
+	in.Hist = hist
+	in.Busy = busy
+	// faults on the flapped names only rarely (the scripted kinds never panic)
+	if r.Bool(3, 4) {
+		in.Panics = nil
+	}
+	return in
+}
+
+func TestVerifC20SuperBusy(t *testing.T) {
+	verifh.Run(t, c20GenSuperBusy, c20ExecSuperBusy, 0)
 }
